@@ -101,6 +101,14 @@ CHECKS = {
                  "separator built-ins, spans handed to actions), and the routes must agree with spans stripped.",
         "note": "Trusted: TLC, the tagging of Python results (harness/stage_act.tagval), the recording actions. Bounded: small grammars with <= 3 nonterminals, sentences <= 9 tokens.",
     },
+    "C11": {
+        "engine": "tlc-trace", "design_ref": "DESIGN.md 3.4 (Recover*, RecoveryProgress), 7 C11",
+        "technique": "RecoveryCheck.tla final-state clauses (termination, only SyntaxError, spans ordered/disjoint/in bounds, trees are derivations over input tokens, every character accounted for, sentences untouched) + LRTrace.tla validation of recorded H-lr events against the LR machine over the real table with RecoveryProgress, TLC",
+        "level": "For every explored corrupted input, parser kind and strategy the run terminates, raises nothing but SyntaxError, reports ordered disjoint in-bounds spans, returns trees that are derivations "
+                 "over real input tokens, accounts for every non-layout character (LR, default), leaves sentences untouched; every LR run's shift/reduce/error/recover events are steps of the LR automaton "
+                 "and every default recovery strictly advances.",
+        "note": "Trusted: TLC, the event recorder (harness/stage_rec.LRRecorder), tree/errors projection. Known finding D15: GLR default recovery resuming where several expected terminals match raises AttributeError.",
+    },
     "C12": {
         "engine": "tlc-replay", "design_ref": "DESIGN.md 3.7, 4.2, 7 C12",
         "technique": "Cache.tla machine model-checked exhaustively (design invariants + reference Transparent), its labelled state graph replayed transition by transition on a real grammar directory, real traces validated against the machine and judged by CacheTrace.tla; Persist.tla for the save/load round trip, TLC",
